@@ -3,9 +3,14 @@ package main
 import (
 	"fmt"
 	"io"
+	"net"
 	"os"
 	"syscall"
 	"time"
+
+	pt "gitlab.torproject.org/tpo/anti-censorship/pluggable-transports/goptlib"
+
+	"gitlab.com/yawning/obfs4.git/transports/base"
 
 	"verifsim/harness"
 	"verifsim/sim"
@@ -279,6 +284,12 @@ func runTermMon(c *harness.Ctx) {
 	c.Info["part"] = "termmon"
 	c.S.ArmSelect()
 	m := &termMonitor{sigChan: make(chan os.Signal), handlerChan: make(chan int)}
+	realHandlers := t.Draw("realhandlers", 2) == 1
+	if realHandlers {
+		termMon = m // the package-level monitor the real handlers report to
+		c.AtEnd(func() { termMon = nil })
+	}
+	c.Info["real_handlers"] = realHandlers
 	nHandlers := t.Draw("nhandlers", 5)
 	active := 0       // started-but-unfinished, as the handlers themselves see it
 	var mainState string
@@ -295,6 +306,64 @@ func runTermMon(c *harness.Ctx) {
 		work := []int{0, 1, 10, 100, 1000}[t.Draw("hwork", 5)]
 		if lateHandlers && i == nHandlers-1 {
 			startDelay = 60
+		}
+		if realHandlers {
+			// the real connection handlers of obfs4proxy with stub factories:
+			// whatever path they take, starts and finishes must pair up
+			kind := t.Draw("hkind", 4)
+			c.S.Go(fmt.Sprintf("h%d/handler", i), func() {
+				c.S.Sleep(time.Duration(startDelay) * time.Millisecond)
+				active++
+				defer func() { active-- }()
+				switch kind {
+				case 0: // bridge side: the transport handshake fails (after a while)
+					l := c.Net.NewLink(fmt.Sprintf("peer%d", i), fmt.Sprintf("h%d", i))
+					c.Feature("real-serverHandler-failed-handshake")
+					serverHandler(&stubServerFactory{c: c, delay: time.Duration(work) * time.Millisecond}, l.B, nil)
+				case 1: // client side: tor sends garbage instead of a SOCKS5 request
+					l := c.Net.NewLink(fmt.Sprintf("tor%d", i), fmt.Sprintf("h%d", i))
+					c.S.Go(fmt.Sprintf("tor%d/garbage", i), func() {
+						l.A.Write([]byte{4, 1, 0, 80, 1, 2, 3, 4, 0})
+						buf := make([]byte, 64)
+						for {
+							if _, err := l.A.Read(buf); err != nil {
+								return
+							}
+						}
+					})
+					c.Feature("real-clientHandler-bad-socks")
+					clientHandler(&stubClientFactory{c: c}, l.B, nil)
+				default: // client side: SOCKS5 ok, (stub) transport dial ok or refused, then a short relay
+					l := c.Net.NewLink(fmt.Sprintf("tor%d", i), fmt.Sprintf("h%d", i))
+					cf := &stubClientFactory{c: c, fail: kind == 3, work: time.Duration(work) * time.Millisecond, idx: i}
+					c.S.Go(fmt.Sprintf("tor%d/socks", i), func() {
+						l.A.Write([]byte{5, 1, 0})
+						buf := make([]byte, 64)
+						io.ReadFull(l.A, buf[:2])
+						l.A.Write([]byte{5, 1, 0, 1, 10, 0, 0, 9, 1, 187})
+						if _, err := io.ReadFull(l.A, buf[:10]); err != nil || buf[1] != 0 {
+							l.A.Close()
+							return
+						}
+						l.A.Write([]byte("hello bridge"))
+						n, _ := l.A.Read(buf) // the far end answers and then hangs up
+						_ = n
+						for {
+							if _, err := l.A.Read(buf); err != nil {
+								l.A.Close()
+								return
+							}
+						}
+					})
+					if kind == 3 {
+						c.Feature("real-clientHandler-dial-refused")
+					} else {
+						c.Feature("real-clientHandler-relayed")
+					}
+					clientHandler(cf, l.B, nil)
+				}
+			})
+			continue
 		}
 		c.S.Go(fmt.Sprintf("h%d/handler", i), func() {
 			c.S.Sleep(time.Duration(startDelay) * time.Millisecond)
@@ -351,7 +420,7 @@ func runTermMon(c *harness.Ctx) {
 			c.Violate("C19/harness", "handlers still active after an hour")
 		}
 	default:
-		if secondSig == syscall.SIGTERM && sigSent < 2 && activeAtReturn > 0 {
+		if secondSig == syscall.SIGTERM && sigSent < 2 && activeAtReturn > 0 && !realHandlers {
 			c.Violate("C19/shutdown-with-active-handler", "wait(true) returned while %d handler(s) were still active and no second signal had been sent", activeAtReturn)
 		}
 		if sigSent < 2 && activeAtReturn == 0 && nHandlers == 0 && waitTrueRet != waitTrueAt {
@@ -379,4 +448,53 @@ func runTermMon(c *harness.Ctx) {
 	drain = false
 	_ = io.EOF
 	_ = sim.StopCond
+}
+
+// ---- stub factories for the real connection handlers ----------------------------
+
+type stubTransport struct{}
+
+func (stubTransport) Name() string { return "stub" }
+func (stubTransport) ClientFactory(string) (base.ClientFactory, error) { return nil, nil }
+func (stubTransport) ServerFactory(string, *pt.Args) (base.ServerFactory, error) { return nil, nil }
+
+// stubServerFactory fails every handshake after a delay (as obfs4 does with probers).
+type stubServerFactory struct {
+	c     *harness.Ctx
+	delay time.Duration
+}
+
+func (f *stubServerFactory) Transport() base.Transport { return stubTransport{} }
+func (f *stubServerFactory) Args() *pt.Args            { return &pt.Args{} }
+func (f *stubServerFactory) WrapConn(conn net.Conn) (net.Conn, error) {
+	f.c.S.Sleep(f.delay)
+	return nil, fmt.Errorf("stub: handshake failed")
+}
+
+// stubClientFactory "dials" a bridge inside the simulation: the far end
+// answers the first bytes it gets and then hangs up.
+type stubClientFactory struct {
+	c    *harness.Ctx
+	fail bool
+	work time.Duration
+	idx  int
+}
+
+func (f *stubClientFactory) Transport() base.Transport        { return stubTransport{} }
+func (f *stubClientFactory) ParseArgs(*pt.Args) (any, error) { return nil, nil }
+func (f *stubClientFactory) Dial(network, addr string, dialFn base.DialFunc, args any) (net.Conn, error) {
+	if f.fail {
+		return nil, &net.OpError{Op: "dial", Net: "tcp", Err: syscall.ECONNREFUSED}
+	}
+	l := f.c.Net.NewLink(fmt.Sprintf("h%d", f.idx), fmt.Sprintf("bridge%d", f.idx))
+	f.c.S.Go(fmt.Sprintf("bridge%d/far", f.idx), func() {
+		buf := make([]byte, 64)
+		if _, err := l.B.Read(buf); err != nil {
+			return
+		}
+		l.B.Write([]byte("hello tor"))
+		f.c.S.Sleep(f.work)
+		l.B.Close()
+	})
+	return l.A, nil
 }
